@@ -1,5 +1,6 @@
 pub mod common;
 pub mod compare;
 pub mod ext;
+pub mod lang;
 pub mod nodelist;
 pub mod slices;
